@@ -85,6 +85,28 @@ EXTRA_MUST_WORK = [
 ]
 
 
+def fn_text(path, name):
+    """normalised text (comments and white space removed) of the function `name` in a Rust file"""
+    src = open(path).read()
+    m = re.search(r"\bfn\s+%s\s*[(<]" % re.escape(name), src)
+    if not m:
+        raise ValueError(name)
+    i = m.start()
+    j = src.index("{", i)
+    depth, k = 0, j
+    while True:
+        if src[k] == "{":
+            depth += 1
+        elif src[k] == "}":
+            depth -= 1
+            if depth == 0:
+                break
+        k += 1
+    head = src[:i].rstrip()
+    start = i - 4 if head.endswith("pub") else i
+    return " ".join(re.sub(r"//[^\n]*", "", src[start:k + 1]).split())
+
+
 def run(ck):
     # ---- translator tie: builder arms
     try:
@@ -95,6 +117,21 @@ def run(ck):
     if arms != MODEL_ARMS:
         ck.report("translator:builder-arms-changed", "the executor builder's node kinds changed: added %s removed %s — the plan checker model no longer describes it" % (
             sorted(arms - MODEL_ARMS), sorted(MODEL_ARMS - arms)), replay={"source_arms": sorted(arms), "model_arms": sorted(MODEL_ARMS)}, found_input=False)
+    # hand-modelled functions (resolve, usedCols, producedOf, keptColumns): their source text is
+    # pinned, so that an edit is at least reported (the differential run below is then the search
+    # for a concrete input; a harmless rewrite is reported too: the correspondence is no longer shown)
+    pins = json.load(open(os.path.join(vlib.VERIF, "checks", "c17_pins.json")))
+    MODELLED_AS = {"executor/mod.rs:resolve_column_index_on_schema": "Wf.resolve", "planner/rules/plan.rs:analyze_columns": "Wf.usedCols",
+                   "planner/rules/plan.rs:produced": "Wf.producedOf", "planner/rules/plan.rs:apply_proj": "Wf.keptColumns / applyProjOrder"}
+    for key, was in pins.items():
+        path, fn = key.split(":")
+        try:
+            now = fn_text(os.path.join(vlib.REPO, "src", path), fn)
+        except ValueError:
+            now = "<not found>"
+        if now != was:
+            ck.report("model-source-changed:" + fn, "%s in src/%s is modelled by hand as %s and its text changed (was %d characters, is %d): the model is no longer shown to describe it" % (
+                fn, path, MODELLED_AS.get(key, "?"), len(was), len(now)), replay={"function": key, "was": was, "is": now, "model": MODELLED_AS.get(key)}, found_input=False)
     # `schema` of the plan checker is regenerated from rules/schema.rs analyze_schema
     rc, out = vlib.sh([sys.executable, os.path.join(vlib.VERIF, "translator/gen_schema.py"), vlib.REPO])
     ck.log(out.strip().split("\n")[-1][:160])
